@@ -85,7 +85,7 @@ type sessionFn func(t triple, sid sessionID, mon *lib.Monitor) (lines, verdicts 
 
 var sessionKinds = map[string]sessionFn{
 	"triple": runSession, "tween": runTweenSession, "race": runRaceSession, "gap": runGapSession, "keyed": runKeyedSession, "masks": runMaskSession, "composite": runCompositeSession,
-	"duel": runDuelSession,
+	"duel": runDuelSession, "tidy": runTidySession, "stall": runStallSession, "window": runWindowSession,
 }
 
 // runConfirmed runs one session against a scratch monitor. Every verdict of the stack involves time somewhere
@@ -223,6 +223,20 @@ func runChildSide(f lib.Flags, res *lib.Result, key string) {
 				exec(t, sessionID{Kind: "duel", Triple: t.key(), Seed: f.Seed, Seq: q, Steps: 2 + q%3})
 			}
 		}
+		// a Pull opened while an Update is removing a cancelled subscription from the bus (held inside Bus.collect)
+		if t.update != nil && compositeShape(t) == nil {
+			for q := 0; q < f.N(3, 24); q++ {
+				exec(t, sessionID{Kind: "tidy", Triple: t.key(), Seed: f.Seed, Seq: q, Steps: 1 + q%3})
+			}
+			// one request parked at a yield point of the write / subscribe / cancel path while another one runs
+			for q := 0; q < f.N(4, 32); q++ {
+				exec(t, sessionID{Kind: "window", Triple: t.key(), Seed: f.Seed, Seq: q, Steps: 2 + q%3})
+			}
+			// a reader that stops reading while Updates keep coming
+			for q := 0; q < f.N(3, 12); q++ {
+				exec(t, sessionID{Kind: "stall", Triple: t.key(), Seed: f.Seed, Seq: q, Steps: q % 3})
+			}
+		}
 		// servers whose Update can start background writes (a Tween field in the resource): tween scenarios
 		if t.update != nil && tweenField(t.resource) != nil {
 			for q := 0; q < f.N(8, 60); q++ {
@@ -341,7 +355,7 @@ func run(f lib.Flags, res *lib.Result) {
 			} else if strings.HasPrefix(cls, "Pull") {
 				kind = "Pull"
 			}
-			in := map[string]any{"kind": "triple", "triple": o.p.Sid.Triple, "seed": o.p.Sid.Seed, "seq": o.p.Sid.Seq, "steps": o.p.Step + 1,
+			in := map[string]any{"kind": o.p.Sid.Kind, "triple": o.p.Sid.Triple, "seed": o.p.Sid.Seed, "seq": o.p.Sid.Seq, "steps": max(o.p.Step+1, o.p.Sid.Steps),
 				"trace": append(o.p.Trace, stepDesc{o.p.Step, o.p.Op, "the serving process died"})}
 			mon.Violate(fmt.Sprintf("C14/%s/%s/%s/panic", t.Row.key(), t.X, kind),
 				kind+" panicked in the server (through the wrapper the handler runs on its own goroutine: the process dies) instead of returning a value or a status",
